@@ -372,7 +372,7 @@ func (m *Machine) callUser(name string, args []Val) Val {
 func (m *Machine) apply(f Val, args []Val) Val {
 	switch tf := f.(type) {
 	case Symbol:
-		return m.callUser(string(tf), args)
+		return m.ordinary(string(tf), args)
 	case *Closure:
 		return m.body(tf.Body, m.bind("lambda", tf.LL, args, tf.Env))
 	}
@@ -664,7 +664,14 @@ func (m *Machine) eval(n *Node, e *env) Val {
 		return Nil{}
 	}
 	// ordinary functions: arguments are evaluated left to right
-	args := m.args(a, e)
+	return m.ordinary(head.Sym, m.args(a, e))
+}
+
+// ordinary applies an ordinary function (a built-in of the subset, else a function of the
+// program) to evaluated arguments: the operator of a call form, or a function designator
+// handed to funcall / apply (#'+, 'list, #'f).
+func (m *Machine) ordinary(name string, args []Val) Val {
+	head := &Node{Kind: 's', Sym: name}
 	switch head.Sym {
 	case "vtr":
 		m.Trace = append(m.Trace, asInt(args[0], "vtr"))
